@@ -23,7 +23,7 @@ theorem newFieldOk_optional {B : Env} {g : FieldDef} (h : newFieldOk B g = true)
   simp only [newFieldOk, Bool.or_eq_true, Bool.and_eq_true] at h
   simp only [optionalAttr, Bool.or_eq_true]
   rcases h with h | h
-  · exact .inl h
+  · exact .inl h.1
   · exact .inr h.1
 
 theorem allOptional_sub {ρ : Rho} {A B : Env} (cx : Ctx ρ A B) {a b : String} (hr : ρ.rel a b = true)
